@@ -2,7 +2,7 @@
    The sequential model treats Use, Tick, Close, New, SetCap as atomic (the controller's lock); the Close/ticker hand-shake, which
    is about the lock itself, is the separate finite transition system of Handshake.v. *)
 From Coq Require Import ZArith List Bool Arith Permutation.
-From Verif Require Import C16.Model C16.Proofs.
+From Verif Require Import C16.Model C16.Proofs C16.Proofs2.
 From Verif Require C16.Handshake.
 Import ListNotations.
 Open Scope Z_scope.
@@ -41,6 +41,38 @@ Theorem C16_root_close_fails_all_pending : forall s, closed (getl s 0%nat) = fal
   snd (close s 0%nat) = map (fun q => (fst (fst q), ErrClosed)) (waiting s) /\ waiting (fst (close s 0%nat)) = [] /\ running (fst (close s 0%nat)) = false.
 Proof. exact root_close_answers_everyone. Qed.
 Print Assumptions C16_root_close_fails_all_pending.
+
+(* ---- LastUsed (Proofs2.v). [desc (S n) s 0 k]: limiter k lies in the tree below the root (following the kids lists, the way the
+   ticker's reset walks it); [att s k]: k is attached to the root through the kids lists. ---- *)
+(* the kids lists and the parent pointers describe a tree in every reachable state: a child's parent is the node that lists it, its
+   index is allocated, and no node lists a child twice *)
+Theorem C16_kids_lists_form_a_tree : forall rootcap ops, Forall no_setcap ops ->
+  K1 (final (init rootcap) ops) /\ K2 (final (init rootcap) ops).
+Proof. intros rootcap ops H. exact (KK_final ops (init rootcap) (Inv_init rootcap) (KK_init rootcap) H). Qed.
+Print Assumptions C16_kids_lists_form_a_tree.
+(* reset rewrites exactly the nodes of the subtree it is called on, each of them once: used := 0, last := the used of before *)
+Theorem C16_reset_rewrites_exactly_the_subtree : forall fuel s i, K1 s -> K2 s -> WF s ->
+  forall k, getl (reset fuel s i) k = if desc fuel s i k then reset_one (getl s k) else getl s k.
+Proof. exact reset_spec. Qed.
+Print Assumptions C16_reset_rewrites_exactly_the_subtree.
+(* the walk reaches every attached limiter, however deep the tree *)
+Theorem C16_every_attached_limiter_is_reached : forall s, K1 s -> WF s -> forall k, att s k -> (k < length (lims s))%nat ->
+  desc (S (length (lims s))) s 0 k = true.
+Proof. exact attached_is_reached. Qed.
+Print Assumptions C16_every_attached_limiter_is_reached.
+(* LASTUSED: in every history, at every tick, LastUsed of every limiter of the tree becomes the amount charged to it - its own grants
+   and its descendants' (C16_grant_charges_exactly_the_ancestor_chain) - in the period that ends; the grants served by the tick itself
+   count for the new period *)
+Theorem C16_last_used_reports_the_period_that_ended : forall rootcap ops, Forall no_setcap ops ->
+  let s := final (init rootcap) ops in running s = true ->
+  forall k, desc (S (length (lims s))) s 0 k = true -> last (getl (fst (tick s)) k) = used (getl s k).
+Proof. exact last_used_in_every_history. Qed.
+Print Assumptions C16_last_used_reports_the_period_that_ended.
+(* non-vacuity: root 10 with a child 5 and a grandchild 3; Use(2) on the grandchild, then a tick: all three report 2 *)
+Example C16_ex_last_used :
+  let s := final (init 10) [ONew 0 5; ONew 1 3; OUse 1 2 2] in
+  (desc 4 s 0 2, map (fun k => last (getl (fst (tick s)) k)) [0; 1; 2]%nat, map (fun k => used (getl (fst (tick s)) k)) [0; 1; 2]%nat) = (true, [2; 2; 2], [0; 0; 0]).
+Proof. vm_compute. reflexivity. Qed.
 
 (* The hand-shake (order in the code now: Lock; mark; Unlock; done <- true): under every schedule of the caller of Close and the
    ticker goroutine, with a tick available at every instant, no reachable state is stuck and completion stays possible;
